@@ -63,6 +63,9 @@ theorem C18_pp_parse_consumption_bound (i : Bytes) (h : Header) (n : Nat) (hp : 
   have := c.hlen
   omega
 
+example : parse (encode (Header.new .loc (.v4 [1, 2, 3, 4] 5) (.v4 [6, 7, 8, 9] 10)) ++ [0, 0]) =
+    .ok (Header.new .loc (.v4 [1, 2, 3, 4] 5) (.v4 [6, 7, 8, 9] 10)) 28 := by decide
+
 /-- Verdicts are stable: once `Ok`, more bytes change nothing (same header,
     same consumed length); once `Error`, more bytes never heal it; and an `Ok`
     only depends on the bytes it consumes, every shorter prefix being
@@ -74,6 +77,9 @@ theorem C18_pp_verdict_stable (i r : Bytes) :
   ⟨fun h n hp => ⟨parse_ok_append i r h n hp, parse_ok_take i h n hp,
       fun k hk => parse_ok_prefix_incomplete i h n k hp hk⟩,
    parse_error_append i r⟩
+
+example : parse [13, 10, 13, 10, 0, 13, 10, 81, 85, 73, 84, 10, 0x30] = .error ∧
+    parse ([13, 10, 13, 10, 0, 13, 10, 81, 85, 73, 84, 10, 0x30] ++ [1, 2, 3]) = .error := by decide
 
 /-! ## send mode -/
 
@@ -90,23 +96,8 @@ theorem C18_send_exactly_once (peer loc : SockAddr) (wss : List (List WRes)) :
     r.2.2 = hdr.take r.1.cursor ∧ r.1.cursor ≤ hdr.length ∧
     (r.2.1 = .upgrade → r.2.2 = hdr) ∧
     (r.2.1 ≠ .upgrade → r.2.2.length < hdr.length) ∧
-    (r.2.1 = .cont ∨ r.2.1 = .close ∨ r.2.1 = .upgrade) := by
-  intro hdr r
-  have p := send_run_post wss (Send.new peer loc) (Nat.zero_le _)
-  have h0 : (Send.new peer loc).header = hdr := rfl
-  have hc0 : (Send.new peer loc).cursor = 0 := rfl
-  obtain ⟨h1, h2, h3, h4, h5, h6, h7⟩ := p
-  rw [h0] at h3 h4 h5 h6
-  rw [hc0] at h4 h6
-  simp only [List.take_zero, List.nil_append] at h4
-  have hlen : 0 < hdr.length := by
-    simp [hdr, encode, encSig, Consts.ppEncSignature]
-  refine ⟨h4, h3, ?_, ?_, h7⟩
-  · intro hu; show r.2.2 = hdr; rw [h4, h5 hu, List.take_length]
-  · intro hn
-    have := h6 hn hlen
-    show r.2.2.length < hdr.length
-    rw [h4, List.length_take]; omega
+    (r.2.1 = .cont ∨ r.2.1 = .close ∨ r.2.1 = .upgrade) :=
+  send_exactly_once_all peer loc wss
 
 example : ((Send.new (.v4 [127, 0, 0, 1] 40000) (.v4 [127, 0, 0, 1] 8080)).run
     [[.ok 5, .wouldBlock], [.ok 0, .ok 100]]).2 =
